@@ -232,12 +232,18 @@ func VerifC02_SnapshotRestore() {
 	if !flagFirst && verifrt.Bool("virtual-ips-flag-after-services") {
 		setFlag()
 	}
+	kvKey := ""
 	if verifrt.Bool("kv") {
 		k := verifrt.StrN("kv.key", 1)
+		kvKey = k
 		verifrt.Assume(k[0] != 0)
 		must(s.KVSSet(tick(), &structs.DirEntry{Key: k, Value: []byte{verifrt.U8("kv.val")}, Flags: verifrt.U64("kv.flags")}))
 		if verifrt.Bool("kv.deleted") {
 			must(s.KVSDelete(tick(), k, nil))
+			// the key may be written again while its tombstone is still there
+			if verifrt.Bool("kv.rewritten") {
+				must(s.KVSSet(tick(), &structs.DirEntry{Key: k, Value: []byte{verifrt.U8("kv.val2")}}))
+			}
 		}
 	}
 	if verifrt.Bool("session") {
@@ -264,6 +270,12 @@ func VerifC02_SnapshotRestore() {
 	v1, _ := s.VirtualIPForService(structs.PeeredServiceName{ServiceName: structs.NewServiceName("api", nil)})
 	v2, _ := restored.VirtualIPForService(structs.PeeredServiceName{ServiceName: structs.NewServiceName("api", nil)})
 	verifrt.Assert("C02.continuation-agrees", (e1 == nil) == (e2 == nil) && v1 == v2)
+	// queries report the same result and the same index
+	for _, prefix := range []string{"", kvKey, kvKey + "/"} {
+		i1, l1, _ := s.KVSList(nil, prefix, nil)
+		i2, l2, _ := restored.KVSList(nil, prefix, nil)
+		verifrt.Assert("C02.kv-list-agrees", i1 == i2 && len(l1) == len(l2))
+	}
 	verifrt.Reached("end")
 }
 
